@@ -9,12 +9,12 @@ MUT=/tmp/aquavm-mut; TGT=/tmp/aquavm-mut-target
 mkdir -p "$MUT" "$TGT"
 for spec in "$@"; do
   seed="${spec%%:*}"; ids="${spec#*:}"
-  rsync -a --delete --exclude target --exclude .git /repo/ "$MUT/"
+  rsync -rlpgoD --checksum --delete --exclude target --exclude .git /repo/ "$MUT/"
   if ! ( cd "$MUT" && patch -p1 -s < "/verif/seeded/$seed/patch.diff" ); then echo "== $seed: patch does not apply" | tee -a /tmp/mutloop.log; continue; fi
   for id in ${ids//,/ }; do
     res=$(VERIF_REPO="$MUT" VERIF_TARGET="$TGT" VERIF_SEED=1 timeout 1500 "$SNAP/bin/check" "$id" quick 2>&1 | strings | grep -E "VIOLATION|^OK|MACHINERY|signature:" | head -6 | cut -c1-160 | tr '\n' '|')
     echo "== $seed $id: $res" | tee -a /tmp/mutloop.log
   done
 done
-rsync -a --delete --exclude target --exclude .git /repo/ "$MUT/"
+rsync -rlpgoD --checksum --delete --exclude target --exclude .git /repo/ "$MUT/"
 echo "== done" | tee -a /tmp/mutloop.log
